@@ -4,6 +4,12 @@
 # working tree. Exit 0 = all obligations discharged (or listed as known
 # findings); exit 1 + "VIOLATION property=… replay=…" otherwise; exit 2 = the
 # tree could not be analysed (never reported as "holds").
+#
+# thorough = the quick rules (C20: plus the whole-module sweep) plus a checker
+# self-test: every stored seeded violation of this property is applied to a
+# scratch worktree of /repo's HEAD (outside /repo and /verif, removed
+# afterwards) and the check must report it. A self-test miss means the checker
+# regressed: exit 2, not a verdict about /repo.
 set -u
 cd "$(dirname "$0")/.."
 VERIF="$(pwd)"
@@ -23,4 +29,47 @@ if [ $need -eq 1 ]; then
   mkdir -p "$VERIF/bin"
   (cd "$VERIF/tool" && go build -o "$BIN" .) || { echo "BROKEN: analyser does not build"; exit 2; }
 fi
-exec "$BIN" -repo "$REPO" -verif "$VERIF" -prop "$PROP" -tier "$TIER"
+"$BIN" -repo "$REPO" -verif "$VERIF" -prop "$PROP" -tier "$TIER"
+rc=$?
+if [ "$TIER" != "thorough" ] || [ $rc -ne 0 ]; then
+  exit $rc
+fi
+# ---- thorough: seeded-violation self-test of the checker
+SCR="$(mktemp -d /tmp/liskcheck-selftest.XXXXXX)"
+results="[]"
+miss=0
+for meta in "$VERIF"/seeded/*/meta.json; do
+  [ -f "$meta" ] || continue
+  p=$(python3 -c "import json,sys;print(json.load(open(sys.argv[1]))['breaks_property'])" "$meta")
+  [ "$p" = "$PROP" ] || continue
+  sid=$(basename "$(dirname "$meta")")
+  wt="$SCR/$sid"; out="$SCR/out_$sid"; mkdir -p "$out"
+  if ! git -C "$REPO" worktree add -q --detach "$wt" HEAD 2>/dev/null; then
+    results=$(python3 -c "import json,sys;r=json.loads(sys.argv[1]);r.append({'seed':sys.argv[2],'status':'skipped: cannot create scratch worktree'});print(json.dumps(r))" "$results" "$sid"); continue
+  fi
+  if git -C "$wt" apply "$VERIF/seeded/$sid/patch.diff" 2>/dev/null; then
+    cp "$VERIF/known_findings.json" "$out/" 2>/dev/null
+    "$BIN" -repo "$wt" -verif "$out" -prop "$PROP" -tier quick > "$out/log" 2>&1
+    src=$?
+    if [ $src -eq 1 ] && grep -q "^VIOLATION property=$PROP" "$out/log"; then st="caught"; else st="MISSED (exit $src)"; miss=1; fi
+  else
+    st="skipped: patch does not apply to the current HEAD"
+  fi
+  git -C "$REPO" worktree remove --force "$wt" >/dev/null 2>&1
+  results=$(python3 -c "import json,sys;r=json.loads(sys.argv[1]);r.append({'seed':sys.argv[2],'status':sys.argv[3]});print(json.dumps(r))" "$results" "$sid" "$st")
+  echo "  self-test seed $sid: $st"
+done
+rm -rf "$SCR"; git -C "$REPO" worktree prune >/dev/null 2>&1
+python3 - "$VERIF/evidence/$PROP.json" "$results" <<'PY'
+import json,sys
+p,res=sys.argv[1],json.loads(sys.argv[2])
+e=json.load(open(p))
+e['coverage']['seeded_selftest']=res
+e['coverage']['explanation']+=" Thorough tier: plus the checker self-test — each stored seeded violation of this property applied to a scratch worktree must be reported."
+json.dump(e,open(p,'w'),indent=1)
+PY
+if [ $miss -ne 0 ]; then
+  echo "BROKEN property=$PROP: the checker no longer reports a stored seeded violation (checker regression, not a verdict about the repository)"
+  exit 2
+fi
+exit 0
